@@ -70,6 +70,10 @@ def step_stmt(env, s):
         p = rv["place"]
         if not p["proj"]:
             env.ref[l] = p["local"]
+    elif k == "discriminant":
+        pl2 = rv["place"]
+        if not pl2["proj"] and pl2["local"] in env.opt and rv.get("path") == OPT:
+            env.boo[l] = env.opt[pl2["local"]] == "Some"   # Option: None = 0, Some = 1
     elif k == "unop" and rv["op"] == "Not":
         src = _plain(rv["a"])
         if src is not None and src in env.boo:
